@@ -5,6 +5,7 @@ package benchtab
 
 import (
 	"bytes"
+	"math"
 	"strings"
 
 	"golang.org/x/perf/benchfmt"
@@ -463,4 +464,28 @@ func H15Rows() {
 	}
 	vndAssert(got == ref, "csv-output-independent-of-map-iteration-order")
 	vndObserveStr("csv", ref)
+}
+
+// H15NaN: a cell's sample and summary do not depend on the order in which its measurements
+// arrived, also when one of them is NaN (legal input: a custom metric may report it).
+// Case-split family: the multiset is concrete, the solver picks the arrival order.
+func H15NaN() {
+	n := vndParam("n")
+	pool := []float64{5, math.NaN(), 1, 2, 6, 7}[:n]
+	ref := benchmath.NewSample(append([]float64(nil), pool...), &benchmath.DefaultThresholds)
+	perm := append([]float64(nil), pool...)
+	for i := n - 1; i > 0; i-- {
+		j := vndChoice("perm", i+1)
+		perm[i], perm[j] = perm[j], perm[i]
+	}
+	got := benchmath.NewSample(perm, &benchmath.DefaultThresholds)
+	vndReach("h15:nan")
+	same := len(ref.Values) == len(got.Values)
+	for k := 0; same && k < len(ref.Values); k++ {
+		same = math.Float64bits(ref.Values[k]) == math.Float64bits(got.Values[k])
+	}
+	vndAssert(same, "cell-content-independent-of-line-order")
+	sa, sb := benchmath.AssumeNothing.Summary(ref, 0.95), benchmath.AssumeNothing.Summary(got, 0.95)
+	eq := func(a, b float64) bool { return a == b || (a != a && b != b) }
+	vndAssert(eq(sa.Center, sb.Center) && eq(sa.Lo, sb.Lo) && eq(sa.Hi, sb.Hi), "cell-summary-independent-of-line-order")
 }
